@@ -111,8 +111,8 @@ theorem bridge_setBit (d : BitVec 64) (i : BitVec 8) (b : Bool) : Data_SetBit_re
 theorem bridge_checkValue (v : BitVec 64) (b : BitVec 8) : CheckValue_ret v b = !checkValue v b.toNat ∧ CheckValue_ok v b = true := by
   bridge
 
-theorem bridge_validate (id : BitVec 32) (len : BitVec 8) (data : BitVec 64) (r e : Bool) :
-    Frame_Validate_ret id len data r e = !(Frame.validate ⟨id, len, data, r, e⟩) ∧ Frame_Validate_ok id len data r e = true := by
+theorem bridge_validate (f : Gen.Go.Frame) :
+    Frame_Validate_ret f = !(CanVerif.Frame.validate ⟨f.ID, f.Length, f.Data, f.IsRemote, f.IsExtended⟩) ∧ Frame_Validate_ok f = true := by
   bridge
 
 /-- `CheckBitRangeLittleEndian` restated over bit-vectors (int = 64-bit two's complement), true = error -/
@@ -210,5 +210,11 @@ the property's domain; there the Go code's uint8 wrap-around in `invertEndian(64
 theorem bridge_checkBE (fl s l : BitVec 8) (hl : l ≠ 0#8) :
     CheckBitRangeBigEndian_ret fl s l = !checkBE fl.toNat s.toNat l.toNat ∧ CheckBitRangeBigEndian_ok fl s l = true :=
   ⟨by rw [(bridge_checkBE_bv fl s l).1, checkBE_bv_eq fl s l hl], (bridge_checkBE_bv fl s l).2⟩
+
+/-- the readers, packers and checks do not assign through their receiver -/
+theorem bridge_data_pure :
+    Data_UnsignedBitsLittleEndian_mutates = false ∧ Data_UnsignedBitsBigEndian_mutates = false ∧
+    Data_SignedBitsLittleEndian_mutates = false ∧ Data_SignedBitsBigEndian_mutates = false ∧
+    Data_PackLittleEndian_mutates = false ∧ Data_PackBigEndian_mutates = false ∧ Data_Bit_mutates = false := by decide
 
 end CanVerif.Bridge
